@@ -857,7 +857,8 @@ class MarkdownNormalizer(Renderer):
 
         # First render the alert header (Alert has alert_type attribute)
         alert_type: str = element.alert_type  # pyright: ignore
-        alert_header = f"> [!{alert_type}]\n"
+        alert_header = f"{self._prefix}> [!{alert_type}]\n"
+        self._prefix = self._second_prefix
 
         result = self._render_quote_body(element)
 
